@@ -329,6 +329,8 @@ func (r *renderer) stmts(body []Stmt) {
 		switch s := s.(type) {
 		case *Site:
 			r.site(s)
+		case *OneLiner:
+			r.oneLiner(s)
 		case *Filler:
 			r.before(&s.Node)
 			s.File = r.f
@@ -414,10 +416,37 @@ func opnd(v *Var) string { return v.Name }
 func (r *renderer) site(s *Site) {
 	r.before(&s.Node)
 	s.File = r.f
+	t := r.trail(&s.Node) + tag(s.ID)
+	text, after := r.siteText(s)
+	s.Start = r.emit("%s%s", text, t)
+	s.End = s.Start
+	for _, a := range after {
+		r.emit("%s", a)
+	}
+}
+
+// oneLiner renders `if true { a /* s1 */; b /* s2 */ }` on a single line.
+func (r *renderer) oneLiner(o *OneLiner) {
+	r.before(&o.Node)
+	o.File = r.f
+	var parts []string
+	for _, s := range o.Sites {
+		s.File = r.f
+		text, _ := r.siteText(s)
+		parts = append(parts, fmt.Sprintf("%s /* s%d */", text, s.ID))
+	}
+	o.Start = r.emit("if true { %s }%s", strings.Join(parts, "; "), r.trail(&o.Node))
+	o.End = o.Start
+	for _, s := range o.Sites {
+		s.Start, s.End = o.Start, o.Start
+	}
+}
+
+// siteText computes the statement text of a site and the filler lines after it.
+func (r *renderer) siteText(s *Site) (string, []string) {
 	if s.LocalVar != nil {
 		s.Local = s.LocalVar.Name
 	}
-	t := r.trail(&s.Node) + tag(s.ID)
 	var text string
 	var after []string
 	o := ""
@@ -461,6 +490,8 @@ func (r *renderer) site(s *Site) {
 		}
 	case "imm.tuple":
 		text = fmt.Sprintf("%s.%s, _ = %s, 0", o, fname, fieldValue(s.Field))
+	case "imm.tuple2":
+		text = fmt.Sprintf("%s.%s, %s.%s = %s, %s", o, fname, o, s.Field2.Name, fieldValue(s.Field), fieldValue(s.Field2))
 	case "imm.compound":
 		text = fmt.Sprintf("%s.%s %s 2", o, fname, s.Aux)
 	case "imm.incdec":
@@ -581,11 +612,7 @@ func (r *renderer) site(s *Site) {
 	default:
 		panic("proggen: unknown site kind " + s.Kind)
 	}
-	s.Start = r.emit("%s%s", text, t)
-	s.End = s.Start
-	for _, a := range after {
-		r.emit("%s", a)
-	}
+	return text, after
 }
 
 // mexprType renders the receiver type of a method expression for s.Fn.
@@ -707,10 +734,39 @@ func shiftStmts(ss []Stmt, off int) {
 		if w, ok := s.(*Wrap); ok {
 			shiftStmts(w.Body, off)
 		}
+		if o, ok := s.(*OneLiner); ok {
+			for _, x := range o.Sites {
+				shiftNode(&x.Node, off)
+			}
+		}
 	}
 }
 
-var tagRe = regexp.MustCompile(`// s(\d+)\b`)
+var tagRe = regexp.MustCompile(`(?://|/\*) s(\d+)\b`)
+
+// TagAtCol returns the tag that belongs to a diagnostic at (line, col): on a
+// line with several inline tags (`a /* s1 */; b /* s2 */`) the first tag that
+// starts after the column; otherwise the line's only tag.
+func TagAtCol(lines []string, line, col int) int {
+	if line < 1 || line > len(lines) {
+		return 0
+	}
+	ms := tagRe.FindAllStringSubmatchIndex(lines[line-1], -1)
+	if len(ms) == 0 {
+		return 0
+	}
+	pick := ms[len(ms)-1]
+	if len(ms) > 1 {
+		for _, m := range ms {
+			if m[0]+1 > col {
+				pick = m
+				break
+			}
+		}
+	}
+	n, _ := strconv.Atoi(lines[line-1][pick[2]:pick[3]])
+	return n
+}
 
 // TagAt returns the site id tagged on the given 1-based line of src (0 if none).
 func TagAt(lines []string, line int) int {
